@@ -178,7 +178,7 @@ def run_thread_check(prop, tier, parts, budget_s, design_ref, assumptions, real_
 
         def on_record(rec, pi=pi, part=part, bad=bad):
             lock_recs.append(rec)
-            if rec.get("verdict") in ("died", "violation"):
+            if rec.get("verdict") == "violation" or (rec.get("verdict") == "died" and rec.get("phase") != "ref"):
                 bad[0] += 1
 
         frac = (pi + 1) / (len(parts) + 0.6)
